@@ -10,7 +10,9 @@ registry lookup and a generated dict-bearing tree's round trip.
 from __future__ import annotations
 
 import collections
+import copy
 import hashlib
+import pickle
 from collections import OrderedDict, defaultdict
 
 import optree
@@ -120,6 +122,22 @@ def key_ns(ns):
     return '' if ns is GLOBAL else ns
 
 
+def value_round_trip(viol, site, what, sp, ns):
+    """"the results still round-trip": a treespec made under any mode is a complete value -- it survives pickle / copy
+    unchanged and rebuilds a tree that flattens (in the namespace it was made with, mode unchanged) back to itself."""
+    try:
+        for how, again in (('pickle', pickle.loads(pickle.dumps(sp))), ('deepcopy', copy.deepcopy(sp)), ('copy', copy.copy(sp))):
+            if again != sp or repr(again) != repr(sp) or again.entries() != sp.entries() or hash(again) != hash(sp):
+                viol('round-trip', site, 'the treespec from %s changes through %s: %r -> %r' % (what, how, sp, again))
+        n = sp.num_leaves
+        tree = sp.unflatten(list(range(n)))
+        lv, sp2 = optree.tree_flatten(tree, namespace=ns, none_is_leaf=sp.none_is_leaf)
+        if lv != list(range(n)) or sp2 != sp:
+            viol('round-trip', site, 'the treespec from %s does not round-trip through unflatten / flatten: %r -> %r, leaves %r' % (what, sp, sp2, lv))
+    except Exception as e:  # noqa: BLE001
+        viol('round-trip', site, 'the treespec from %s cannot be pickled / copied / unflattened: %s: %s' % (what, type(e).__name__, e))
+
+
 class Model:
     def __init__(self):
         self.flags = {}
@@ -180,6 +198,8 @@ def observe(model, viol, site, probes, extra_tree):
                 viol('round-trip', site, '%s does not round-trip in namespace %r (mode %s): keys %r' % (name, ns, want_eff, list(back.keys())))
             if spec != spec2 or spec != ctor:
                 viol('order-mismatch', site, 'treespecs of one %s obtained through flatten / with_path / constructor differ in namespace %r' % (name, ns))
+            for how, sp in (('flatten', spec), ('with_path', spec2), ('constructor', ctor), ('from_collection', fc)):
+                value_round_trip(viol, site, '%s of a %s in namespace %r under mode %s' % (how, name, ns, want_eff), sp, ns)
             # the treespec must carry what is needed to reproduce its own order: every entry point records the same
             # namespace (== treats '' as a wildcard, so compare the fields), and re-flattening in the RECORDED namespace
             # gives the same leaf order (this is what tree_transpose / tree_map with such a treespec rely on)
@@ -244,6 +264,7 @@ def observe(model, viol, site, probes, extra_tree):
                 # whether they also record the mode's namespace is not part of the property (they do not for small dicts)
                 if made != ref:
                     viol('order-mismatch', site, '%s with %d key(s) in namespace %r is %r but flattening the same collection gives %r' % (nm, n_keys, ns, made, ref))
+                value_round_trip(viol, site, '%s with %d key(s) in namespace %r under mode %s' % (nm, n_keys, ns, want_eff), made, ns)
         outer = [dict(PROBE_DICT), (defaultdict(int, PROBE_DICT),)]
         ospec = optree.tree_structure(outer, namespace=ns)
         for got_sub, direct in ((ospec.child(0), optree.tree_structure(outer[0], namespace=ns)), (ospec.children()[1].child(0), optree.tree_structure(outer[1][0], namespace=ns)),
